@@ -16,7 +16,7 @@ from hypothesis import strategies as st
 from vf import gen, prog, sem, oracles
 
 PROP = "C01"
-CASES = {"quick": 2000, "thorough": 30000}
+CASES = {"quick": 2000, "thorough": 80000}
 RULE = ("generated bounded method-like models over all 24 classes (<= 3 steps, <= 3 metrics, extras: user "
         "constraints with constants, equalities, LMIs symmetric or not as written, function-level constraints/LMIs, "
         "unused objects, partitions, redeclared constraints) x {CLARABEL, SCS, default solver} x verbose x "
